@@ -114,6 +114,15 @@ class HeapBuilder:
             return Z.mk_ref(i)
         from .types import TMap
 
+        if type(ty).__name__ == "TSet":
+            if id(obj) in self.ids:
+                return Z.mk_ref(self.ids[id(obj)])
+            i = self.new_id(obj)
+            has = z3.K(Z.Val, z3.BoolVal(False))
+            for k in list(obj):
+                has = z3.Store(has, self.encode(k, ty.elem) if ty.elem is not None else self.term(k), z3.BoolVal(True))
+            self.mhas = z3.Store(self.mhas, z3.IntVal(i), has)
+            return Z.mk_ref(i)
         if isinstance(ty, TMap):
             if id(obj) in self.ids:
                 return Z.mk_ref(self.ids[id(obj)])
@@ -157,3 +166,69 @@ def holds(formula, timeout_ms=20000):
     s.add(z3.Not(formula))
     r = s.check()
     return True if r == z3.unsat else False if r == z3.sat else None
+
+
+# ---- grounding of set-sum clauses on concrete heaps -------------------------------------------------------------------------
+def ground(f, ids, max_index=8):
+    """rewrite a clause for evaluation on a CONCRETE heap: quantifiers over Val range over the known objects (plus one unknown
+    reference and None - outside the known objects every membership array is False), quantifiers over Int over 0..max_index,
+    ssum / scard become explicit finite sums over the known objects.  Only used to evaluate clauses on concrete runs (replay)."""
+    from . import setsum as SS
+
+    cands = [Z.mk_ref(i) for i in sorted(set(ids))] + [Z.mk_ref(10 ** 6 + 7), Z.NONE]
+    cache = {}
+    keep = []
+
+    def go(e):
+        key = e.get_id()
+        if key in cache:
+            return cache[key]
+        keep.append(e)          # AST ids are only unique among live ASTs: keep every visited term alive while the cache is
+        if z3.is_quantifier(e) and e.is_lambda():
+            cache[key] = e          # an array given by comprehension: Select on it beta-reduces
+            return e
+        if z3.is_quantifier(e):
+            n = e.num_vars()
+            sorts = [e.var_sort(i) for i in range(n)]
+            doms = []
+            for srt in sorts:
+                if srt == Z.Val:
+                    doms.append(cands)
+                elif srt == z3.IntSort():
+                    doms.append([z3.IntVal(k) for k in range(-1, max_index + 1)])
+                else:
+                    cache[key] = e
+                    return e
+            import itertools
+
+            parts = []
+            body = e.body()
+            for combo in itertools.product(*doms):
+                # de Bruijn: variable 0 is the LAST bound variable
+                parts.append(go(z3.substitute_vars(body, *reversed(combo))))
+            r = z3.And(*parts) if e.is_forall() else z3.Or(*parts)
+            cache[key] = r
+            return r
+        if z3.is_app(e):
+            d = e.decl()
+            kids = [go(c) for c in e.children()]
+            if d.name() == "ssum" and len(kids) == 2:
+                m, fl = kids
+                r = z3.Sum([z3.If(z3.Select(m, x), Z.rval(z3.Select(fl, Z.Val.id(x))), z3.RealVal(0)) for x in cands[:-2]] + [z3.RealVal(0)])
+            elif d.name() == "scard" and len(kids) == 1:
+                r = z3.Sum([z3.If(z3.Select(kids[0], x), z3.IntVal(1), z3.IntVal(0)) for x in cands[:-2]] + [z3.IntVal(0)])
+            elif kids:
+                r = d(*kids)
+            else:
+                r = e
+            cache[key] = r
+            return r
+        cache[key] = e
+        return e
+
+    return go(f)
+
+
+def mentions_setsum(f):
+    s = f.sexpr()
+    return "ssum" in s or "scard" in s or "$mhas" in s
